@@ -13,6 +13,7 @@ import (
 
 	"github.com/q191201771/lal/pkg/base"
 	"github.com/q191201771/lal/pkg/sdp"
+	"github.com/q191201771/naza/pkg/nazaatomic"
 	"github.com/q191201771/naza/pkg/nazaerrors"
 	"github.com/q191201771/naza/pkg/nazanet"
 )
@@ -41,6 +42,7 @@ type PullSession struct {
 	baseInSession *BaseInSession
 
 	disposeOnce sync.Once
+	disposeFlag nazaatomic.Bool
 	waitChan    chan error
 }
 
@@ -217,6 +219,11 @@ func (session *PullSession) OnConnectResult() {
 // OnDescribeResponse callback by ClientCommandSession
 func (session *PullSession) OnDescribeResponse(sdpCtx sdp.LogicContext) {
 	session.onDescribeResponse()
+	// 注意，上层可能在回调中拒绝并关闭了这个session（比如此时已经存在其他输入流），
+	// 此时不能再把sdp回调给上层，否则会覆盖正在使用的输入流的sdp
+	if session.disposeFlag.Load() {
+		return
+	}
 	session.baseInSession.InitWithSdp(sdpCtx)
 }
 
@@ -254,6 +261,7 @@ func (session *PullSession) WriteInterleavedPacket(packet []byte, channel int) e
 func (session *PullSession) dispose(err error) error {
 	var retErr error
 	session.disposeOnce.Do(func() {
+		session.disposeFlag.Store(true)
 		Log.Infof("[%s] lifecycle dispose rtsp PullSession. session=%p", session.UniqueKey(), session)
 		e1 := session.cmdSession.Dispose()
 		e2 := session.baseInSession.Dispose()
